@@ -492,7 +492,8 @@ func hasShorterPrefixFirstAlt(e rsyntax.Expr) bool {
 		}
 		x, okx := lit(e.Args[0])
 		y, oky := lit(e.Args[1])
-		if okx && oky && len(x) < len(y) && strings.HasPrefix(y, x) {
+		// case-insensitively: under (?i) `AA|aAA` (re-written as `a?AA`) is the same situation
+		if okx && oky && len(x) < len(y) && strings.EqualFold(y[:len(x)], x) {
 			return true
 		}
 	}
